@@ -404,7 +404,9 @@ class Result:
                 cw.cleanup()
         # evidence/ describes runs against /repo itself; a run against another tree (VERIF_REPO: seeded changes, harmless
         # rewrites) leaves its record under .work/ instead
-        evdir = os.path.join(VERIF, "evidence") if os.path.realpath(REPO) == "/repo" else os.path.join(WORKROOT, "evidence-other-tree")
+        # (likewise a run on a scratch copy of the Coq development, VERIF_COQ: development aid)
+        own = os.path.realpath(REPO) == "/repo" and os.path.realpath(COQ) == os.path.realpath(os.path.join(VERIF, "coq"))
+        evdir = os.path.join(VERIF, "evidence") if own else os.path.join(WORKROOT, "evidence-other-tree")
         os.makedirs(evdir, exist_ok=True)
         with open(os.path.join(evdir, self.prop + ".json"), "w") as f:
             json.dump(ev, f, indent=1, sort_keys=True)
